@@ -29,6 +29,14 @@ Mechanism keys (DESIGN Appendix A):
       direction over-suppressed / under-suppressed / new-diagnostic / unused-reported-though-it-suppressed /
                 unused-not-reported-though-nothing-suppressed / bare-ignore-missing / bare-ignore-spurious /
                 stray-ignore-report
+  header|<placement>|<sel>|<direction>                     a generated file header (1-3 ignore markers + ordinary lines) in
+                                                           front of P; the clause that failed is named by the marker it is about
+      placement file-level:only / file-level:first / file-level:later (ordinal of the marker among the markers of the
+                leading comment block) / own-line-after-block (a marker line below the line that ended the block) /
+                out-of-scope (the affected diagnostic is in no marker's scope) / -
+      sel       sel = the marker is bare or names the diagnostic's code, unsel = the diagnostic's line is in the
+                marker's scope but the marker names other codes, - = not about one diagnostic
+      direction as above, plus duplicate-ignore-report
 """
 from __future__ import annotations
 
@@ -39,6 +47,7 @@ import json
 import linecache
 import os
 import random
+import re
 import sys
 import tokenize
 import types
@@ -65,9 +74,17 @@ RULE = (
     "top-level disable_all + `code = true`; a few through the real CLI. Comment cases = (program, physical line, "
     "trailing | own-line-before, bare | [each code on the target line] | [a code elsewhere in P] | [a code not in P]) "
     "for every line where tokenize shows the insertion leaves the token stream unchanged, plus an own-line comment "
-    "after the last line, plus leading (file-level) placements. Non-trivial = disable case with {} != S != codes(P); "
+    "after the last line, plus leading (file-level) placements. File headers = (program, header) with header = "
+    "g0 m1 g1 [m2 g2 [m3 g3]] put in front of P: the marker sequence m1..mk walks through ALL 84 sequences of length 1-3 "
+    "over {bare, [a code of D(P), a different one per marker], [a code not in D(P)], [two codes]} (every order; 42 per "
+    "program, rotating), the gaps g are drawn from {nothing, comment, '#' + comment, blank line, blank + comment, "
+    "docstring} and g0 also from {shebang, coding line, shebang + coding, shebang + comments, comment + blank}: markers "
+    "in the leading comment block (whole-file scope) in first / later position, markers below a blank line or a "
+    "docstring that ended the block (own-line scope: the next physical line, which is P's first line, another marker "
+    "or a comment), ordinary comment / shebang / coding lines that do not end the block. Non-trivial = disable case with {} != S != codes(P); "
     "comment case whose target line carries a diagnostic or which is a boundary placement (line 1, last line, EOF, line "
-    "after a multi-diagnostic line, leading). Distinct by (program digest, route, S) / (program digest, form, line, comment). "
+    "after a multi-diagnostic line, leading); header case with >= 2 markers or a marker whose scope holds a diagnostic. "
+    "Distinct by (program digest, route, S) / (program digest, form, line, comment) / (program digest, header lines). "
     "Per program also 2 singletons of codes WITHOUT a diagnostic in D(P) through the override routes. Interaction corpus: "
     "functions = (15 ways to bind a local: assignment, annotated, reassigned, in a branch, maybe-unbound, unpacking, for, "
     "with, import, walrus, augmented, nested def, parameter, global) x (50 ways to mention it without reading it: inside "
@@ -88,9 +105,18 @@ ASSUMPTIONS = [
     "one Checker per configuration is shared by the runs that use that configuration (a fresh module object per run); "
     "history effects of sharing are C10's subject",
     "statement: trailing comment -> diagnostics on its own physical line; own-line comment -> diagnostics on the next "
-    "physical line; an own-line comment preceded only by '#' lines is a leading file-level comment; only the bare "
-    "file-level form is judged for what it suppresses (the coded file-level form is observed and histogrammed); "
-    "bare_ignore on a bare file-level comment is observed, not judged (documented as allowed)",
+    "physical line; an own-line comment preceded only by '#' lines is a leading file-level comment: it suppresses the "
+    "whole file, of the named code or of all codes when bare (the scope is the whole file, the code filter is the one "
+    "the statement gives every ignore comment); bare_ignore on a bare file-level comment is observed, not judged "
+    "(documented as allowed)",
+    "file headers with several markers: every diagnostic in the scope of a bare / single-code marker must be gone and "
+    "nothing else; 'suppressed nothing' for one marker is decided only where it does not depend on how a diagnostic "
+    "covered by several markers is attributed: a marker none of whose in-scope diagnostics disappeared must be "
+    "reported unused, and for a diagnostic that disappeared at least one of the markers covering it must not be "
+    "reported unused; a marker naming several codes ('[a, b]') is not a form the statement defines: what it suppresses "
+    "itself (nothing, or diagnostics of its codes in its scope) is observed, everything else in such a file is judged; "
+    "under a bare file-level marker (whole file suppressed) unused_ignore / bare_ignore reports about the OTHER markers "
+    "are observed, not judged (they are diagnostics of the suppressed file)",
     "'suppressed nothing' is decided on what was observed: no diagnostic of D(P) is missing from D(P + comment)",
     "diagnostics produced after check() returns (ClassAttributeChecker) are not observable through harness.run except on the CLI route",
     "interaction corpus: base run and disabled run happen in one process (same hash seed), so an iteration-order "
@@ -113,7 +139,7 @@ FLOORS = {   # ~50 % of what the unchanged tree yields (quick: 160 programs, tho
 LEVEL_TEXT = (
     "held-on-explored: every (program, S, route) and every admissible comment placement of the generated programs was "
     "executed through the real checker and judged by multiset algebra on its own output; nothing is claimed about "
-    "programs, routes or placements outside the rule (comments inside strings, several comments per file, "
+    "programs, routes or placements outside the rule (comments inside strings, several comments in the body of a file, "
     "diagnostics of the ClassAttributeChecker); on the interaction corpus every single code was disabled, larger "
     "subsets only sampled"
 )
@@ -640,9 +666,9 @@ def judge_comment(base: Counter, got: Counter, form: str, line: int, code: Optio
         if bare:
             targeted = Counter(mapped)
         else:
-            judged_suppression = False   # coded file-level form: observed, not judged
-            targeted = Counter()
+            # coded file-level form: whole-file scope, the named code (what it did is also histogrammed)
             whole = Counter({d: k for d, k in mapped.items() if d[0] == code})
+            targeted = Counter(whole)
             nxt = Counter({d: k for d, k in mapped.items() if d[0] == code and d[1] == tl})
             info["coded_file_level"] = (
                 "nothing-to-suppress" if not whole else
@@ -761,6 +787,226 @@ def placements_for(source: str, base: Counter, rng: random.Random):
     for code, vname in variants(n + 1):
         out.append(("own-line", n + 1, code, "", vname, True))
     return out
+
+
+# ---------------------------------------------------------------------------
+# file headers: 1-3 ignore markers in front of P, interleaved with ordinary header lines
+#
+# header = g0 m1 g1 [m2 g2 [m3 g3]].  A marker inside the leading comment block (every line up to and including it
+# starts with '#') has whole-file scope; a marker below the line that ended the block (blank line, docstring) is an
+# ordinary own-line comment (scope: the next physical line).  The expectation is pure projection of D(P) (shifted by the
+# header length): every diagnostic in the scope of a bare / single-code marker is gone, nothing else is.
+
+SHEBANG = "#!/usr/bin/env python3"
+CODING = "# -*- coding: utf-8 -*-"
+COMMENT_A = "# Copyright (c) the authors. All rights reserved."
+COMMENT_B = "# static analysis: see the notes below (this line is not a marker)"
+HASH = "#"
+NOSPACE = "#no space after the hash"
+BLANK = ""
+DOCSTRING = '"""Module docstring."""'
+
+# (weight, lines)
+GAP_FIRST = [(8, []), (2, [SHEBANG]), (2, [CODING]), (2, [SHEBANG, CODING]), (2, [COMMENT_A]),
+             (2, [SHEBANG, COMMENT_A, HASH]), (1, [COMMENT_B, CODING]), (2, [BLANK]), (2, [COMMENT_A, BLANK]), (1, [DOCSTRING])]
+GAP_MID = [(10, []), (4, [COMMENT_A]), (2, [HASH, COMMENT_B]), (1, [NOSPACE]), (3, [BLANK]), (1, [BLANK, COMMENT_A]), (1, [DOCSTRING])]
+GAP_LAST = [(8, []), (4, [COMMENT_A]), (4, [BLANK]), (2, [BLANK, COMMENT_B]), (2, [COMMENT_A, BLANK]), (1, [NOSPACE, HASH])]
+
+MARKER_KINDS = ("bare", "present", "absent", "multi")
+MARKER_SEQS = [seq for n in (1, 2, 3) for seq in itertools.product(MARKER_KINDS, repeat=n)]     # 4 + 16 + 64 = 84
+HEADERS_PER_PROGRAM = 42
+
+_MARK_RE = re.compile(r"^# static analysis: ignore(?:\[([^\]]*)\])?$")
+
+
+def parse_marker(line: str):
+    """-> None | ('bare', ()) | ('coded', (code,)) | ('multi', (code, code...)); header lines are never indented."""
+    m = _MARK_RE.match(line.rstrip())
+    if m is None:
+        return None
+    if m.group(1) is None:
+        return "bare", ()
+    codes = tuple(c.strip() for c in m.group(1).split(","))
+    return ("coded" if len(codes) == 1 else "multi"), codes
+
+
+def _weighted(rng: random.Random, table):
+    return list(rng.choices([g for _, g in table], weights=[w for w, _ in table])[0])
+
+
+def build_header(seq, codes_p, foreign_pool, rng: random.Random):
+    """Header lines for a marker-kind sequence: successive 'present' markers name different codes of D(P)."""
+    present = list(codes_p)
+    rng.shuffle(present)
+    nxt = iter(itertools.cycle(present))
+    lines = _weighted(rng, GAP_FIRST)
+    for k, kind in enumerate(seq):
+        if kind == "bare":
+            lines.append(IGNORE)
+        elif kind == "present":
+            lines.append(f"{IGNORE}[{next(nxt)}]")
+        elif kind == "absent":
+            lines.append(f"{IGNORE}[{rng.choice(foreign_pool)}]")
+        else:
+            shape = rng.randrange(3)
+            pair = ([next(nxt), rng.choice(foreign_pool)] if shape == 0 else
+                    [rng.choice(foreign_pool), next(nxt)] if shape == 1 else [next(nxt), next(nxt)])
+            lines.append(f"{IGNORE}[" + rng.choice([", ", ","]).join(pair) + "]")
+        lines += _weighted(rng, GAP_LAST if k == len(seq) - 1 else GAP_MID)
+    return lines
+
+
+def header_source(header, source: str) -> str:
+    return "\n".join(header) + "\n" + source
+
+
+def header_model(header, source: str):
+    """The markers of the header with their scope, decided on the text alone."""
+    new_lines = list(header) + source.split("\n")
+    block_end = next((i for i, ln in enumerate(new_lines) if not ln.startswith("#")), len(new_lines))
+    markers = []
+    for i, ln in enumerate(header):
+        pm = parse_marker(ln)
+        if pm is not None:
+            markers.append({"line": i + 1, "kind": pm[0], "codes": pm[1], "in_block": i < block_end})
+    in_block = [m for m in markers if m["in_block"]]
+    for m in markers:
+        if not m["in_block"]:
+            m["placement"] = "own-line-after-block"
+        elif len(in_block) == 1:
+            m["placement"] = "file-level:only"
+        else:
+            m["placement"] = "file-level:first" if m is in_block[0] else "file-level:later"
+    return markers
+
+
+def _in_scope(m, d) -> bool:
+    return m["in_block"] or d[1] == m["line"] + 1
+
+
+def _covers(m, d) -> bool:
+    return _in_scope(m, d) and (m["kind"] == "bare" or d[0] in m["codes"])
+
+
+def judge_header(base: Counter, got: Counter, header, source: str):
+    """Pure set algebra. -> (verdict or None, info), verdict = (placement, sel, direction, diagnostic)."""
+    h = len(header)
+    mapped = Counter({(c, (ln + h if ln is not None else ln), col, desc): k for (c, ln, col, desc), k in base.items()})
+    special = Counter({d: k for d, k in got.items() if d[0] in SPECIAL})
+    rest = got - special
+    removed = mapped - rest
+    new = rest - mapped
+    markers = header_model(header, source)
+    defined = [m for m in markers if m["kind"] != "multi"]
+    multi = [m for m in markers if m["kind"] == "multi"]
+    must: Counter = Counter({d: k for d, k in mapped.items() if any(_covers(m, d) for m in defined)})
+    may: Counter = Counter({d: k for d, k in mapped.items() if d not in must and any(_covers(m, d) for m in multi)})
+    whole_file = any(m["kind"] == "bare" and m["in_block"] for m in markers)
+    in_block = [m for m in markers if m["in_block"]]
+    first = in_block[0] if in_block else None
+
+    def sole_later(d) -> bool:
+        cov = [m for m in defined if _covers(m, d)]
+        return bool(cov) and all(m["placement"] == "file-level:later" for m in cov)
+
+    info = {
+        "markers": len(markers), "in_block": len(in_block), "after_block": len(markers) - len(in_block),
+        "removed": sum(removed.values()), "must": sum(must.values()), "whole_file": whole_file,
+        "later_sole_cover": sum(k for d, k in mapped.items() if sole_later(d)),
+        "own_line_hits": sum(k for d, k in mapped.items() if any((not m["in_block"]) and _covers(m, d) for m in defined)),
+        "bare_after_coded_in_block": any(m["kind"] == "bare" and m is not first for m in in_block),
+        "multi_outcome": None, "unused_reports": sum(k for d, k in special.items() if d[0] == "unused_ignore"),
+    }
+    if multi:
+        hit = sum((removed & may).values())
+        info["multi_outcome"] = ("nothing-only-it-could-suppress" if not may else
+                                 "suppressed-nothing" if not hit else
+                                 "suppressed-all-of-its-codes" if hit == sum(may.values()) else "suppressed-some")
+
+    under = must - removed
+    if under:
+        d = sorted(under.elements(), key=repr)[0]
+        m = [m for m in defined if _covers(m, d)][0]
+        return (m["placement"], "sel", "under-suppressed", d), info
+    over = removed - must - may
+    if over:
+        d = sorted(over.elements(), key=repr)[0]
+        near = [m for m in markers if _in_scope(m, d)]
+        if near:
+            return (near[0]["placement"], "unsel", "over-suppressed", d), info
+        return ("out-of-scope", "-", "over-suppressed", d), info
+    if new:
+        d = sorted(new.elements(), key=repr)[0]
+        return ("-", "-", "new-diagnostic", d), info
+    by_line = {m["line"]: m for m in markers}
+    stray = sorted((d for d in special if d[1] not in by_line), key=repr)
+    if stray:
+        return ("-", "-", "stray-ignore-report", stray[0]), info
+    unused_at = Counter(d[1] for d in special.elements() if d[0] == "unused_ignore")
+    bare_at = Counter(d[1] for d in special.elements() if d[0] == "bare_ignore")
+    for line, n in sorted((unused_at | bare_at).items()):
+        if n > 1:
+            return (by_line[line]["placement"], "-", "duplicate-ignore-report", ("unused_ignore/bare_ignore", line, None, f"x{n}")), info
+    # a diagnostic that disappeared: at least one of the markers covering it is not reported unused
+    for d in sorted((removed & (must + may)), key=repr):
+        cov = [m for m in markers if _covers(m, d)]
+        if cov and all(unused_at[m["line"]] for m in cov):
+            return (cov[0]["placement"], "sel", "unused-reported-though-it-suppressed", d), info
+    if whole_file:
+        others = [m for m in markers if not (m["kind"] == "bare" and m["in_block"])]
+        info["whole_file_other_markers"] = (
+            "none" if not others else
+            "none-reported" if not any(unused_at[m["line"]] or bare_at[m["line"]] for m in others) else "some-reported")
+        return None, info
+    for m in markers:
+        tgt = Counter({d: k for d, k in mapped.items() if _covers(m, d)})
+        if not (tgt & removed) and unused_at[m["line"]] != 1:
+            return (m["placement"], "-", "unused-not-reported-though-nothing-suppressed",
+                    ("unused_ignore", m["line"], None, f"x{unused_at[m['line']]}")), info
+        if m["kind"] == "bare" and bare_at[m["line"]] != 1:
+            return (m["placement"], "-", "bare-ignore-missing", ("bare_ignore", m["line"], None, f"x{bare_at[m['line']]}")), info
+        if m["kind"] != "bare" and bare_at[m["line"]] != 0:
+            return (m["placement"], "-", "bare-ignore-spurious", ("bare_ignore", m["line"], None, f"x{bare_at[m['line']]}")), info
+    return None, info
+
+
+def header_key_what(v, header):
+    placement, sel, direction, d = v
+    shown = [ln for ln in header]
+    return (f"header|{placement}|{sel}|{direction}",
+            f"header {shown!r} in front of the program: {direction}; affected {short(d)} "
+            f"(marker: {placement}, line numbers of the file with the header)")
+
+
+def header_case(source: str, header, kw: dict, base: Optional[Counter] = None):
+    """One header, from scratch. -> (key, what) or None; raises Undecided."""
+    if base is None:
+        base = run_diags(source, kw)
+    got = run_diags(header_source(header, source), kw)
+    v, _ = judge_header(base, got, header, source)
+    if v is None:
+        return None
+    return header_key_what(v, header)
+
+
+def minimise_header(witness: dict, key: str) -> dict:
+    """Drop header lines (ordinary lines first, then markers) while the same key keeps being produced."""
+    best = dict(witness)
+    order = sorted(range(len(best["header"])), key=lambda i: (parse_marker(best["header"][i]) is not None, -i))
+    dropped: set = set()
+    for i in order:
+        cand = dict(best)
+        cand["header"] = [ln for j, ln in enumerate(witness["header"]) if j not in dropped | {i}]
+        if not any(parse_marker(ln) for ln in cand["header"]):
+            continue
+        try:
+            res = replay(cand)
+        except Exception:  # noqa: BLE001
+            res = None
+        if res and res[0] == key:
+            dropped.add(i)
+            best = cand
+    return best
 
 
 # ---------------------------------------------------------------------------
@@ -1185,7 +1431,7 @@ def shard(ctx) -> None:
                 ctx.count("file_level_bare_cases")
                 ctx.histo("file_level_bare_ignore_reported(observed)", str(info.get("file_level_bare_ignore_reported")))
             if "coded_file_level" in info:
-                ctx.histo("coded_file_level_outcome(observed,not judged)", f"{vname}:{info['coded_file_level']}")
+                ctx.histo("coded_file_level_outcome(observed)", f"{vname}:{info['coded_file_level']}")
             if info["targeted"] or boundary or leading:
                 ctx.nontrivial((pd, form, line, code, indent))
                 ctx.count("comment_cases_nontrivial")
@@ -1197,6 +1443,61 @@ def shard(ctx) -> None:
                 report(ctx, key, what,
                        {"kind": "comment", "source": source, "form": form, "line": line, "code": code, "indent": indent},
                        seen_keys, 120)
+
+
+        # ---------------- (3) file headers with 1-3 markers ----------------
+        foreign_pool = [c for c in ALL_CODES if c not in codes and c not in SPECIAL]
+        hrng = random.Random(f"C11-headers/{ctx.seed}/{idx}")
+        for j in range(HEADERS_PER_PROGRAM):
+            seq = MARKER_SEQS[(2 * j + idx + idx // ctx.nshards + ctx.seed) % len(MARKER_SEQS)]
+            header = build_header(seq, codes, foreign_pool, hrng)
+            try:
+                got = run_diags(header_source(header, source), kw_c)
+            except Undecided as e:
+                ctx.count("undecided")
+                ctx.note(f"program {idx} header {header!r}: {e}")
+                continue
+            v, info = judge_header(base, got, header, source)
+            ctx.count("evaluations")
+            ctx.count("header_cases")
+            ctx.histo("header_marker_sequence_length", str(len(seq)))
+            ctx.histo("header_markers_in_block_x_after_block", f"{info['in_block']}x{info['after_block']}")
+            ctx.histo("header_first_marker_kind", seq[0])
+            if info["in_block"] >= 2:
+                ctx.count("header_cases_2plus_markers_in_block")
+            if info["later_sole_cover"]:
+                ctx.count("header_cases_diag_covered_only_by_later_marker")
+            if info["bare_after_coded_in_block"]:
+                ctx.count("header_cases_bare_marker_after_another_in_block")
+            if info["after_block"]:
+                ctx.count("header_cases_marker_after_block_end")
+            if info["own_line_hits"]:
+                ctx.count("header_cases_own_line_marker_hits_first_line_of_P")
+            if info["removed"]:
+                ctx.count("header_suppressed_something")
+            if 0 < info["removed"] < ndiag:
+                ctx.count("header_suppressed_proper_part")
+            if info["unused_reports"]:
+                ctx.count("header_reported_unused")
+            if info["multi_outcome"]:
+                ctx.histo("header_multi_code_marker_outcome(observed)", info["multi_outcome"])
+            if "whole_file_other_markers" in info:
+                ctx.histo("header_other_markers_under_bare_file_level(observed)", info["whole_file_other_markers"])
+            if info["markers"] >= 2 or info["must"]:
+                ctx.nontrivial((pd, "header", tuple(header)))
+                ctx.count("header_cases_nontrivial")
+            if v is not None:
+                key, what = header_key_what(v, header)
+                witness = {"kind": "header", "source": source, "header": header}
+                if key not in seen_keys:
+                    try:
+                        witness = minimise_header(witness, key)
+                        res = replay(witness)
+                        if res and res[0] == key:
+                            what = res[1]
+                    except Exception as e:  # noqa: BLE001
+                        ctx.note(f"header minimiser failed for {key}: {e!r}")
+                report(ctx, key, what, witness, seen_keys, 60)
 
 
 _BRACKET_CACHE: dict = {}
@@ -1233,6 +1534,8 @@ def replay(witness):
         if kind == "comment":
             return comment_case(witness["source"], witness["form"], witness["line"], witness.get("code"),
                                 witness.get("indent", ""), comment_kw())
+        if kind == "header":
+            return header_case(witness["source"], witness["header"], comment_kw())
         if kind == "disable":
             return disable_case(witness["route"], witness["source"], witness["S"], witness["codes"])
         if kind == "interaction":
